@@ -210,6 +210,14 @@ pub fn bank_program(seed: u64, p: u64, cart_type: u8, rom_code: u8) -> (Vec<u8>,
     let off = bank * 0x4000 + 0x1100;
     image[off..off + a.bytes.len()].copy_from_slice(&a.bytes);
   }
+  // "self-switch" routine at 0x4E00, byte for byte the same in every bank (the usual way to
+  // switch banks from banked code): LD (0x2100),A ; LD A,(0x4F00) ; RET - it maps another bank
+  // over itself and then reads a byte that differs from bank to bank
+  for bank in 0..banks {
+    let off = bank * 0x4000;
+    image[off + 0x0e00..off + 0x0e07].copy_from_slice(&[0xea, 0x00, 0x21, 0xfa, 0x00, 0x4f, 0xc9]);
+    image[off + 0x0f00] = (bank as u8).wrapping_mul(29) ^ 0xc3;
+  }
   // "peek" routines in bank 0: fixed-bank code that READS the switchable window through an
   // absolute address. The routine is translated once; what it reads must follow the bank.
   for (k, &src) in [0x4002u16, 0x4201, 0x5001].iter().enumerate() {
@@ -272,7 +280,14 @@ pub fn bank_program(seed: u64, p: u64, cart_type: u8, rom_code: u8) -> (Vec<u8>,
     if a.here() > 0x2d00 {
       break;
     }
-    match rng.below(15) {
+    match rng.below(17) {
+      15 | 16 => {
+        // banked code that maps another bank over itself and reads the window afterwards
+        a.ld_a(rng.u8());
+        a.call(0x4e00);
+        a.b(&[0x81, 0x4f]); // ADD A,C; LD C,A
+        desc.push_str(" selfswitch");
+      }
       12..=14 => {
         // data read of the switchable window from bank-0 code, under whatever bank is mapped now
         a.call(0x3000 + 0x10 * rng.below(3) as u16);
@@ -640,6 +655,128 @@ pub fn run(ctx: &mut Ctx) {
     ctx.distinct_key(hash_words(&[p, seed, hash_bytes(kind.as_bytes())]));
     if ctx.want_sample() && p % 29 == 3 {
       ctx.sample(&format!("{} role {}: program #{} [{}]: {} steps, digest of registers/IME/run state, all RAMs, I/O registers, IF/IE, timer phase, LCD position, DMA progress, joypad latch, MBC registers, serial output so far (frame buffers every 64 steps) after every step", prop, role, p, desc.trim(), steps));
+    }
+  }
+  // ---- the largest block there can be (a whole 16 KiB bank of the instruction with the
+  // largest translation, DAA) translated at the worst moment: the cache is filled with
+  // small blocks until the room left is just above the level at which the recompiler
+  // would start over, then the bank is entered. The interpreter-only build simply runs
+  // it; the jit build must not run out of its buffer.
+  #[cfg(feature = "jit")]
+  {
+    if role != "write" && kind == "c04" && ctx.mine(nprog + 1) {
+      ctx.intent(&[nprog + 1, 0]);
+      let mut image = support::make_image(0x01, 0x01, 0x00);
+      for i in 0..image.len() {
+        image[i] = [0x76u8, 0x18, 0xfd, 0x00][i & 3];
+      }
+      for i in 0x1000..0x3f00usize {
+        image[i] = 0x1c; // INC E
+      }
+      image[0x3f00] = 0xc9;
+      for i in 0x4000..0x7fffusize {
+        image[i] = 0x27; // DAA
+      }
+      image[0x7fff] = 0xc9;
+      support::stamp_header(&mut image, 0x01, 0x01, 0x00);
+      // attempt(stop): on a fresh core, fill the cache with blocks of INC E until at most `stop`
+      // bytes are left (or until the recompiler starts over by itself: result 3, with the lowest
+      // level it let the cache reach), then enter the DAA bank. 0 = the recompiler started over
+      // before translating it, 1 = it fitted, 2 = the jit build panicked
+      let attempt = |stop: usize| -> (u8, usize, String) {
+        let mut core = support::core_from_image(&image);
+        let mut room;
+        let mut prev_room = usize::MAX;
+        let mut k = 0u32;
+        loop {
+          let (_, _, cursor, cap) = core.cache.verif_layout();
+          room = cap - cursor;
+          if room > prev_room {
+            return (3, prev_room, String::new());
+          }
+          prev_room = room;
+          if room <= stop || k > 6000 {
+            break;
+          }
+          let n: u32 = if room > stop + 0x30000 && room > 0x500000 { 2000 } else { 128 };
+          core.registers.ip = 0x3f00 - n - (k % 1500);
+          core.registers.sp = 0xdff0;
+          core.run_state = RunState::Run;
+          core.memory.work_ram[0x1ff0] = 0x50;
+          core.memory.work_ram[0x1ff1] = 0x01;
+          core.run_code_block();
+          k += 1;
+        }
+        let before = core.cache.verif_layout().2;
+        let mp = &mut core.memory as *mut MemoryAreas;
+        crate::mem::memory_write_byte(mp, 0x2100, 1);
+        core.registers.ip = 0x4000;
+        core.registers.sp = 0xdff0;
+        core.run_state = RunState::Run;
+        core.memory.work_ram[0x1ff0] = 0x50;
+        core.memory.work_ram[0x1ff1] = 0x01;
+        unsafe {
+          crate::rt::EXPECT_PANIC = true;
+        }
+        let r = {
+          let c = &mut *core;
+          std::panic::catch_unwind(std::panic::AssertUnwindSafe(|| c.run_code_block()))
+        };
+        unsafe {
+          crate::rt::EXPECT_PANIC = false;
+        }
+        match r {
+          Err(e) => (2, room, e.downcast_ref::<String>().cloned().or_else(|| e.downcast_ref::<&str>().map(|s| s.to_string())).unwrap_or_default()),
+          Ok(_) => {
+            let after = core.cache.verif_layout().2;
+            (if after < before + 0x100000 { 0 } else { 1 }, room, String::new())
+          }
+        }
+      };
+      // first find the lowest level the recompiler lets the cache reach while small blocks are
+      // being translated; then enter the largest block at exactly that level and at a few levels
+      // above it (around the block's own size in particular): none may panic
+      let mut probes = 0u64;
+      let mut bad: Option<(usize, String)> = None;
+      let (res0, lowest, msg0) = attempt(0);
+      probes += 1;
+      evaluations += 1;
+      if res0 == 2 {
+        bad = Some((lowest, msg0));
+      }
+      let hi = lowest;
+      if bad.is_none() {
+        let mut fitted = 0u64;
+        let mut restarted = 0u64;
+        for stop in [lowest, lowest + 0x1000, lowest + 0x8000, lowest + 0x40000, lowest + 0x100000, 0x230000, 0x234000, 0x238000, 0x300000, 0x500000].iter() {
+          if *stop < lowest || (res0 != 3 && *stop == lowest) {
+            continue;
+          }
+          let (res, room, msg) = attempt(*stop);
+          probes += 1;
+          evaluations += 1;
+          match res {
+            2 => {
+              bad = Some((room, msg));
+              break;
+            }
+            0 => restarted += 1,
+            1 => fitted += 1,
+            _ => {}
+          }
+        }
+        ctx.count("largest-block:entered-and-fitted", fitted);
+        ctx.count("largest-block:entered-after-restart", restarted);
+      }
+      ctx.count("largest-block:room-levels-probed", probes);
+      ctx.count("largest-block:lowest-cache-level-reached", hi as u64);
+      if let Some((room, msg)) = bad {
+        ctx.violation(
+          "C04:jit-build-panicked:largest-block-does-not-fit",
+          &format!("a bank filled with 16383 x DAA + RET, entered with {} bytes of the code cache left: the jit build panicked ({}); the interpreter-only build runs the block", room, msg),
+        );
+      }
+      ctx.distinct_key(hash_words(&[nprog + 1, 0xdaa]));
     }
   }
   ctx.intent_clear();
